@@ -219,7 +219,7 @@ class RDTrajectory :
             return 0
         
         if t>=self.t.get_at(self.nsamples()-1) :
-            return self.nsamples()-1
+            return self._first_of_equal_times(self.nsamples()-1)
         
         for i in range(self.nsamples()-1) :
             if t>=self.t.get_at(i) and t<self.t.get_at(i+1):
@@ -227,9 +227,16 @@ class RDTrajectory :
                 dt1 = self.t.get_at(i+1)-t
                 
                 if dt0<=dt1 : 
-                    return i
+                    return self._first_of_equal_times(i)
                 else : 
                     return i+1
+
+    def _first_of_equal_times(self, i) :
+        # samples recorded at the same time (an explicit sample() call right after an automatic record)
+        # tie: the earliest one is the answer.
+        while i>0 and self.t.get_at(i-1)==self.t.get_at(i) :
+            i -= 1
+        return i
 
     def _get_sample_index_infeq(self, t) :
 
@@ -255,7 +262,7 @@ class RDTrajectory :
             return 0
         
         if t==self.t.get_at(self.nsamples()-1) :
-            return self.nsamples()-1
+            return self._first_of_equal_times(self.nsamples()-1)
 
         if t>self.t.get_at(self.nsamples()-1) :
             return None
